@@ -21,7 +21,7 @@ def run(chk):
     chk.rule = ("op knn: Space::new/add_parts/knn on 5 box shapes (3 non-cubic), 5 grid cell sizes, 4 point families, k from 1 to n-1: every particle's result = its k nearest others in increasing exact distance "
                 "(ties within rounding either way), equal to Model/Knn; op sphere: Welzl / EPOS-6 / EPOS-6-of-spheres contain their input, Welzl radius = exact minimal radius (certificate-checked); "
                 "non-trivial = knn record with >= 2 grid cells per axis somewhere or sphere with >= 3 points; distinct by record")
-    chk.lean(['MVoro.Props.C20', 'MVoro.Proofs.Aux20'], ['MVoro.Obl.Space'], ['Space'])
+    chk.lean(['MVoro.Props.C20', 'MVoro.Proofs.Aux20', 'MVoro.Proofs.MEBProofs'], ['MVoro.Obl.Space'], ['Space'])
     got = run_cells_op(chk, op='knn')
     if got is None:
         return
